@@ -6,12 +6,12 @@ EXTENDS EventsBuffer, TLC, Json, IOUtils
 
 Trace == ndJsonDeserialize(IOEnv.TRACE)
 VARIABLES l, seq
-tvars == <<l, seq, parents, sizes, limit, connected, copies, failed>>
+tvars == <<l, seq, parents, sizes, limit, connected, copies, failed, peak, extc>>
 T == Trace[l]
 Is(op) == l <= Len(Trace) /\ T.op = op /\ l' = l + 1
 
 TInit == /\ TLCSet(1, 1) /\ l = 1 /\ seq = FALSE
-         /\ parents = <<>> /\ sizes = <<>> /\ limit = [num |-> 0, size |-> 0] /\ connected = {} /\ copies = <<>> /\ failed = FALSE
+         /\ parents = <<>> /\ sizes = <<>> /\ limit = [num |-> 0, size |-> 0] /\ connected = {} /\ copies = <<>> /\ failed = FALSE /\ peak = [num |-> 0, size |-> 0] /\ extc = {}
 
 TReset == /\ Is("reset") /\ BReset(T.parents, T.sizes, T.limit) /\ seq' = T.sequential
 TPush == Is("push") /\ Push(T.copy, T.ev) /\ UNCHANGED seq
@@ -21,10 +21,11 @@ TReleased == Is("released") /\ Released(T.copy, T.ev) /\ UNCHANGED seq
 TPushed == /\ Is("pushed") /\ UNCHANGED seq
            /\ IF seq THEN PushReturn(T.copy, T.complete, T.num, T.size)
               ELSE PushReturn(T.copy, T.complete, 0, 0)      \* concurrent runs: limits are not sampled
+TExt == Is("ext") /\ ExtConnect(T.ev) /\ UNCHANGED seq
 TClear == Is("clear") /\ UNCHANGED bvars /\ UNCHANGED seq
-TCleared == /\ Is("cleared") /\ Cleared /\ Complete /\ UNCHANGED seq
+TCleared == /\ Is("cleared") /\ Cleared /\ Complete(seq) /\ UNCHANGED seq
 
-TNext == TReset \/ TPush \/ TCheck \/ TProcess \/ TReleased \/ TPushed \/ TClear \/ TCleared
+TNext == TExt \/ TReset \/ TPush \/ TCheck \/ TProcess \/ TReleased \/ TPushed \/ TClear \/ TCleared
 TSpec == TInit /\ [][TNext]_tvars
 
 Mark == TLCSet(1, IF l > TLCGet(1) THEN l ELSE TLCGet(1))
